@@ -344,7 +344,7 @@ pub fn run(ctx: &Ctx) {
     for (label, stress) in [("generated", false), ("skip-stress", true), ("dup-keys", false)] {
         let mut pc = p.clone();
         pc.dup_keys = label == "dup-keys";
-        ctx.search(&subs[0], label, ctx.n(200_000, 3_000_000), 700, &move |src: &mut Src| {
+        ctx.search(&subs[0], label, ctx.n(600_000, 4_800_000), 700, &move |src: &mut Src| {
             let (doc, paths) = doc_and_paths(src, &pc, stress);
             let mut m = gens::mutate(src, &doc).0;
             if src.chance(70) {
@@ -395,7 +395,7 @@ pub fn run(ctx: &Ctx) {
         }
     });
     // invalid UTF-8 inside otherwise well-formed strings and keys, at varying distance from the start
-    ctx.search(&subs[3], "utf8-in-strings", ctx.n(60_000, 600_000), 300, &|src: &mut Src| {
+    ctx.search(&subs[3], "utf8-in-strings", ctx.n(180_000, 1_440_000), 300, &|src: &mut Src| {
         let pad = *src.pick(&[0usize, 1, 10, 30, 31, 32, 33, 60, 64, 100]);
         let bad: &[u8] = *src.pick(gens::UTF8_DAMAGE);
         let mut lit = vec![b'"'];
